@@ -117,6 +117,7 @@ type HWorld struct {
 	frame    time.Duration
 	sessions map[*models.Session]bool
 	FlagsFor func(slot int) []string // optional per-connection flag override
+	NoBubble bool                    // not inside a synctest bubble (scheduled driver): never wait on the fake clock
 }
 
 func NewHWorld(cfg Config) *HWorld {
@@ -266,6 +267,9 @@ func (w *HWorld) Close(slot int) {
 // it), waits until everything is blocked again, then handles what the frames
 // released, connection by connection.
 func (w *HWorld) Advance(d time.Duration) {
+	if w.NoBubble {
+		return
+	}
 	time.Sleep(d)
 	synctest.Wait()
 	for _, c := range w.all {
@@ -295,13 +299,17 @@ func (w *HWorld) Shutdown() {
 	for s := range w.sessions {
 		s.Close()
 	}
-	synctest.Wait()
+	if !w.NoBubble {
+		synctest.Wait()
+	}
 }
 
 // Leaks: after all connections ended nothing of them may remain.
 func (w *HWorld) Leaks() []string {
 	var out []string
-	synctest.Wait()
+	if !w.NoBubble {
+		synctest.Wait()
+	}
 	if n := countGoroutines("models.(*Session).StartDispatchFrames"); n != 0 {
 		out = append(out, fmt.Sprintf("%d session frame worker(s) still running", n))
 	}
